@@ -154,7 +154,7 @@ impl Check for C10 {
     }
     fn assumptions(&self) -> Vec<String> {
         vec![
-            "bit-vector states only, every state has a next function, init reads earlier states only (in-domain restriction of the property)".into(),
+            "bit-vector states only, every state has a next function; init expressions read earlier states and, in a quarter of the systems, inputs".into(),
             "feasible = the state has at least one input satisfying the constraints in its own step; PDR may legitimately block other states".into(),
         ]
     }
